@@ -698,7 +698,15 @@ func childMain(s *Spec, o Options, rec *Rec) int {
 			defer wg.Done()
 			for j := range ch {
 				logf("START %d\n", j.i)
+				t0 := time.Now()
 				runOne(s, rec, j.c)
+				if d := time.Since(t0); d > 10*time.Second && os.Getenv("VERIF_SLOW") != "" {
+					b, _ := json.Marshal(j.c)
+					if f, err := os.OpenFile(os.Getenv("VERIF_SLOW"), os.O_APPEND|os.O_CREATE|os.O_WRONLY, 0o644); err == nil {
+						fmt.Fprintf(f, "SLOW-CASE %s %s %s\n", s.ID, d.Round(time.Second), b)
+						f.Close()
+					}
+				}
 				logf("DONE %d\n", j.i)
 			}
 		}()
